@@ -52,16 +52,22 @@ class Setup:
         self.native_users = [bech32.addr(N, "nuser%d" % i) for i in range(3)]
         self.impostor = bech32.addr(N, "impostor")
         self.validators = [bech32.addr(self.val_prefix, "val%d" % i) for i in range(3)]
-        self.channel = "channel-7"
+        self.channel = profile.get("channel", "channel-+5" if rng.random() < 0.03 else "channel-7")
         self.other_channel = "channel-8"
         self.sub = "stTIA"
         self.lst = "factory/%s/%s" % (self.contract, self.sub)
         self.oracle_on = profile.get("oracle", rng.random() < 0.75)
         self.treasury_on = profile.get("treasury", rng.random() < 0.6)
         self.fee = profile.get("fee", rng.choice([0, 1, 10_000, 10_000, 10_000, 99_999, 100_000, 100_001]))
+        if "fee" not in profile and rng.random() < 0.04:
+            self.fee = 2 ** 128 - 1
         self.min_stake = rng.choice([1, 100, 1000])
         self.batch_period = profile.get("batch_period", rng.choice([0, 1, 3600, DAY, DAY]))
         self.unbonding = profile.get("unbonding", rng.choice([0, 1, 3 * DAY, 21 * DAY]))
+        if "batch_period" not in profile and rng.random() < 0.03:
+            self.batch_period = 2 ** 64 - 1
+        if "unbonding" not in profile and rng.random() < 0.03:
+            self.unbonding = 2 ** 64 - 1
 
     def hook_staker(self, channel=None, staker=None):
         return bech32.hook_account(channel or self.channel, staker or self.staker, self.chain_prefix)
@@ -278,11 +284,13 @@ class History:
             self.iw = ImplWorld(self.h, su.contract, su.chain_prefix, self.time, self.height)
             tx = self.iw.run_exec(su.admin, [], su.instantiate_msg(), None, 0, entry="instantiate")
             self.stats.calls += len(tx["calls"])
+            self.boot_tx = tx
             if not tx["committed"]:
                 return False
             self._impl_dump()
             return True
         tx = self.d.call(req)
+        self.boot_tx = tx
         self._replay_calls(tx)
         self.stats.bump(self.stats.configs, "oracle=%s treasury=%s fee=%s eqprefix=%s bp=%s ub=%s" % (
             su.oracle_on, su.treasury_on, su.fee, su.native_prefix == su.proto_prefix, su.batch_period, su.unbonding))
